@@ -1,17 +1,1220 @@
-/- TEMPORARY STUB (replaced by the full descriptor model) -/
+/-
+M7 — model of descriptor.go: the 23 typed DVB/MPEG descriptors, the unknown and the user-defined
+descriptor; `parseDescriptors` and every `newDescriptorXxx`, the length calculators
+`calcDescriptorXxxLength`, the writers `writeDescriptorXxx`, `writeDescriptor`,
+`calcDescriptorsLength`, `writeDescriptors`, `writeDescriptorsWithLength`.
+
+Conventions as in Model/Packet.lean (structures mirror the Go structs field for field in Go
+declaration order, `toJson` prints the Go field names in that order, `uintN` arithmetic is `Nat` with
+an explicit `% 2^n` where Go truncates, parsers are `P`, writers return the emitted bytes).
+
+Loops (`for i.Offset() < offsetEnd { … }`) are structural recursions on a fuel argument. Every
+iteration that does not fail reads at least one byte with `NextByte`/`NextBytes`, which succeed only
+while `offset + n ≤ len`; so at most `len` iterations succeed and `len + 1` fuel is always enough
+(`loopFuel`). Running out of fuel yields `.err .other` and is unreachable.
+
+TWO deliberate deviations from the Go source as it stands (the model describes the repaired code):
+ (a) `writeDescriptor` skips the body when the *computed* length is 0 (Go tests the redundant struct
+     field `d.Length`);
+ (b) `calcDescriptorVBIDataLength` counts, per service, 2 bytes plus `len(Descriptors)` for the six
+     known data service ids and plus 1 for any other id (Go returns `3 * len(Services)`).
+-/
 import Astits.Basic
 import Astits.Model.DVB
 namespace Astits
-structure Descriptor where
-  length : Nat := 0
+
+/-! ### structures -/
+
+structure DescriptorAC3 where
+  additionalInfo : Bytes := []
+  asvc : Nat := 0
+  bsid : Nat := 0
+  componentType : Nat := 0
+  hasASVC : Bool := false
+  hasBSID : Bool := false
+  hasComponentType : Bool := false
+  hasMainID : Bool := false
+  mainID : Nat := 0
+  deriving Repr, DecidableEq, Inhabited
+
+structure DescriptorAVCVideo where
+  avc24HourPictureFlag : Bool := false
+  avcStillPresent : Bool := false
+  compatibleFlags : Nat := 0
+  constraintSet0Flag : Bool := false
+  constraintSet1Flag : Bool := false
+  constraintSet2Flag : Bool := false
+  levelIDC : Nat := 0
+  profileIDC : Nat := 0
+  deriving Repr, DecidableEq, Inhabited
+
+structure DescriptorComponent where
+  componentTag : Nat := 0
+  componentType : Nat := 0
+  iso639LanguageCode : Bytes := []
+  streamContent : Nat := 0
+  streamContentExt : Nat := 0
+  text : Bytes := []
+  deriving Repr, DecidableEq, Inhabited
+
+structure DescriptorContentItem where
+  contentNibbleLevel1 : Nat := 0
+  contentNibbleLevel2 : Nat := 0
+  userByte : Nat := 0
+  deriving Repr, DecidableEq, Inhabited
+
+structure DescriptorContent where
+  items : List DescriptorContentItem := []
+  deriving Repr, DecidableEq, Inhabited
+
+structure DescriptorDataStreamAlignment where
+  type : Nat := 0
+  deriving Repr, DecidableEq, Inhabited
+
+structure DescriptorEnhancedAC3 where
+  additionalInfo : Bytes := []
+  asvc : Nat := 0
+  bsid : Nat := 0
+  componentType : Nat := 0
+  hasASVC : Bool := false
+  hasBSID : Bool := false
+  hasComponentType : Bool := false
+  hasMainID : Bool := false
+  hasSubStream1 : Bool := false
+  hasSubStream2 : Bool := false
+  hasSubStream3 : Bool := false
+  mainID : Nat := 0
+  mixInfoExists : Bool := false
+  subStream1 : Nat := 0
+  subStream2 : Nat := 0
+  subStream3 : Nat := 0
+  deriving Repr, DecidableEq, Inhabited
+
+structure DescriptorExtendedEventItem where
+  content : Bytes := []
+  description : Bytes := []
+  deriving Repr, DecidableEq, Inhabited
+
+structure DescriptorExtendedEvent where
+  iso639LanguageCode : Bytes := []
+  items : List DescriptorExtendedEventItem := []
+  lastDescriptorNumber : Nat := 0
+  number : Nat := 0
+  text : Bytes := []
+  deriving Repr, DecidableEq, Inhabited
+
+structure DescriptorExtensionSupplementaryAudio where
+  editorialClassification : Nat := 0
+  hasLanguageCode : Bool := false
+  languageCode : Bytes := []
+  mixType : Bool := false
+  privateData : Bytes := []
+  deriving Repr, DecidableEq, Inhabited
+
+/-- `Unknown` is `*[]byte` in Go: `none` = nil pointer, `some bs` = pointer to a slice -/
+structure DescriptorExtension where
+  supplementaryAudio : Option DescriptorExtensionSupplementaryAudio := none
   tag : Nat := 0
-  deriving Repr, Inhabited
-def Descriptor.toJson (d : Descriptor) : String := jobj [("Length", jnat d.length), ("Tag", jnat d.tag)]
+  unknown : Option Bytes := none
+  deriving Repr, DecidableEq, Inhabited
+
+structure DescriptorISO639LanguageAndAudioType where
+  language : Bytes := []
+  type : Nat := 0
+  deriving Repr, DecidableEq, Inhabited
+
+/-- `time.Duration` = nanoseconds, `time.Time` = Unix seconds (see Model/DVB.lean) -/
+structure DescriptorLocalTimeOffsetItem where
+  countryCode : Bytes := []
+  countryRegionID : Nat := 0
+  localTimeOffset : Int := 0
+  localTimeOffsetPolarity : Bool := false
+  nextTimeOffset : Int := 0
+  timeOfChange : Int := 0
+  deriving Repr, DecidableEq, Inhabited
+
+structure DescriptorLocalTimeOffset where
+  items : List DescriptorLocalTimeOffsetItem := []
+  deriving Repr, DecidableEq, Inhabited
+
+structure DescriptorMaximumBitrate where
+  bitrate : Nat := 0
+  deriving Repr, DecidableEq, Inhabited
+
+structure DescriptorNetworkName where
+  name : Bytes := []
+  deriving Repr, DecidableEq, Inhabited
+
+structure DescriptorParentalRatingItem where
+  countryCode : Bytes := []
+  rating : Nat := 0
+  deriving Repr, DecidableEq, Inhabited
+
+structure DescriptorParentalRating where
+  items : List DescriptorParentalRatingItem := []
+  deriving Repr, DecidableEq, Inhabited
+
+structure DescriptorPrivateDataIndicator where
+  indicator : Nat := 0
+  deriving Repr, DecidableEq, Inhabited
+
+structure DescriptorPrivateDataSpecifier where
+  specifier : Nat := 0
+  deriving Repr, DecidableEq, Inhabited
+
+structure DescriptorRegistration where
+  additionalIdentificationInfo : Bytes := []
+  formatIdentifier : Nat := 0
+  deriving Repr, DecidableEq, Inhabited
+
+structure DescriptorService where
+  name : Bytes := []
+  provider : Bytes := []
+  type : Nat := 0
+  deriving Repr, DecidableEq, Inhabited
+
+structure DescriptorShortEvent where
+  eventName : Bytes := []
+  language : Bytes := []
+  text : Bytes := []
+  deriving Repr, DecidableEq, Inhabited
+
+structure DescriptorStreamIdentifier where
+  componentTag : Nat := 0
+  deriving Repr, DecidableEq, Inhabited
+
+structure DescriptorSubtitlingItem where
+  ancillaryPageID : Nat := 0
+  compositionPageID : Nat := 0
+  language : Bytes := []
+  type : Nat := 0
+  deriving Repr, DecidableEq, Inhabited
+
+structure DescriptorSubtitling where
+  items : List DescriptorSubtitlingItem := []
+  deriving Repr, DecidableEq, Inhabited
+
+structure DescriptorTeletextItem where
+  language : Bytes := []
+  magazine : Nat := 0
+  page : Nat := 0
+  type : Nat := 0
+  deriving Repr, DecidableEq, Inhabited
+
+structure DescriptorTeletext where
+  items : List DescriptorTeletextItem := []
+  deriving Repr, DecidableEq, Inhabited
+
+structure DescriptorUnknown where
+  content : Bytes := []
+  tag : Nat := 0
+  deriving Repr, DecidableEq, Inhabited
+
+structure DescriptorVBIDataDescriptor where
+  fieldParity : Bool := false
+  lineOffset : Nat := 0
+  deriving Repr, DecidableEq, Inhabited
+
+structure DescriptorVBIDataService where
+  dataServiceID : Nat := 0
+  descriptors : List DescriptorVBIDataDescriptor := []
+  deriving Repr, DecidableEq, Inhabited
+
+structure DescriptorVBIData where
+  services : List DescriptorVBIDataService := []
+  deriving Repr, DecidableEq, Inhabited
+
+structure Descriptor where
+  ac3 : Option DescriptorAC3 := none
+  avcVideo : Option DescriptorAVCVideo := none
+  component : Option DescriptorComponent := none
+  content : Option DescriptorContent := none
+  dataStreamAlignment : Option DescriptorDataStreamAlignment := none
+  enhancedAC3 : Option DescriptorEnhancedAC3 := none
+  extendedEvent : Option DescriptorExtendedEvent := none
+  extension : Option DescriptorExtension := none
+  iso639LanguageAndAudioType : Option DescriptorISO639LanguageAndAudioType := none
+  length : Nat := 0
+  localTimeOffset : Option DescriptorLocalTimeOffset := none
+  maximumBitrate : Option DescriptorMaximumBitrate := none
+  networkName : Option DescriptorNetworkName := none
+  parentalRating : Option DescriptorParentalRating := none
+  privateDataIndicator : Option DescriptorPrivateDataIndicator := none
+  privateDataSpecifier : Option DescriptorPrivateDataSpecifier := none
+  registration : Option DescriptorRegistration := none
+  service : Option DescriptorService := none
+  shortEvent : Option DescriptorShortEvent := none
+  streamIdentifier : Option DescriptorStreamIdentifier := none
+  subtitling : Option DescriptorSubtitling := none
+  tag : Nat := 0
+  teletext : Option DescriptorTeletext := none
+  unknown : Option DescriptorUnknown := none
+  userDefined : Bytes := []
+  vbiData : Option DescriptorVBIData := none
+  vbiTeletext : Option DescriptorTeletext := none
+  deriving Repr, DecidableEq, Inhabited
+
+/-! ### canonical JSON -/
+
+/-- a Go pointer: `null` or the value (same as `jopt` of Model/Packet.lean, which is not imported here) -/
+def jptr {α} (f : α → String) : Option α → String
+  | none => "null"
+  | some a => f a
+
+/-- a Go slice of pointers to structs -/
+def jlist {α} (f : α → String) (xs : List α) : String := jarr (xs.map f)
+
+def DescriptorAC3.toJson (d : DescriptorAC3) : String :=
+  jobj [("AdditionalInfo", jhex d.additionalInfo), ("ASVC", jnat d.asvc), ("BSID", jnat d.bsid),
+    ("ComponentType", jnat d.componentType), ("HasASVC", jbool d.hasASVC), ("HasBSID", jbool d.hasBSID),
+    ("HasComponentType", jbool d.hasComponentType), ("HasMainID", jbool d.hasMainID), ("MainID", jnat d.mainID)]
+
+def DescriptorAVCVideo.toJson (d : DescriptorAVCVideo) : String :=
+  jobj [("AVC24HourPictureFlag", jbool d.avc24HourPictureFlag), ("AVCStillPresent", jbool d.avcStillPresent),
+    ("CompatibleFlags", jnat d.compatibleFlags), ("ConstraintSet0Flag", jbool d.constraintSet0Flag),
+    ("ConstraintSet1Flag", jbool d.constraintSet1Flag), ("ConstraintSet2Flag", jbool d.constraintSet2Flag),
+    ("LevelIDC", jnat d.levelIDC), ("ProfileIDC", jnat d.profileIDC)]
+
+def DescriptorComponent.toJson (d : DescriptorComponent) : String :=
+  jobj [("ComponentTag", jnat d.componentTag), ("ComponentType", jnat d.componentType),
+    ("ISO639LanguageCode", jhex d.iso639LanguageCode), ("StreamContent", jnat d.streamContent),
+    ("StreamContentExt", jnat d.streamContentExt), ("Text", jhex d.text)]
+
+def DescriptorContentItem.toJson (d : DescriptorContentItem) : String :=
+  jobj [("ContentNibbleLevel1", jnat d.contentNibbleLevel1), ("ContentNibbleLevel2", jnat d.contentNibbleLevel2),
+    ("UserByte", jnat d.userByte)]
+
+def DescriptorContent.toJson (d : DescriptorContent) : String :=
+  jobj [("Items", jlist DescriptorContentItem.toJson d.items)]
+
+def DescriptorDataStreamAlignment.toJson (d : DescriptorDataStreamAlignment) : String :=
+  jobj [("Type", jnat d.type)]
+
+def DescriptorEnhancedAC3.toJson (d : DescriptorEnhancedAC3) : String :=
+  jobj [("AdditionalInfo", jhex d.additionalInfo), ("ASVC", jnat d.asvc), ("BSID", jnat d.bsid),
+    ("ComponentType", jnat d.componentType), ("HasASVC", jbool d.hasASVC), ("HasBSID", jbool d.hasBSID),
+    ("HasComponentType", jbool d.hasComponentType), ("HasMainID", jbool d.hasMainID),
+    ("HasSubStream1", jbool d.hasSubStream1), ("HasSubStream2", jbool d.hasSubStream2),
+    ("HasSubStream3", jbool d.hasSubStream3), ("MainID", jnat d.mainID), ("MixInfoExists", jbool d.mixInfoExists),
+    ("SubStream1", jnat d.subStream1), ("SubStream2", jnat d.subStream2), ("SubStream3", jnat d.subStream3)]
+
+def DescriptorExtendedEventItem.toJson (d : DescriptorExtendedEventItem) : String :=
+  jobj [("Content", jhex d.content), ("Description", jhex d.description)]
+
+def DescriptorExtendedEvent.toJson (d : DescriptorExtendedEvent) : String :=
+  jobj [("ISO639LanguageCode", jhex d.iso639LanguageCode), ("Items", jlist DescriptorExtendedEventItem.toJson d.items),
+    ("LastDescriptorNumber", jnat d.lastDescriptorNumber), ("Number", jnat d.number), ("Text", jhex d.text)]
+
+def DescriptorExtensionSupplementaryAudio.toJson (d : DescriptorExtensionSupplementaryAudio) : String :=
+  jobj [("EditorialClassification", jnat d.editorialClassification), ("HasLanguageCode", jbool d.hasLanguageCode),
+    ("LanguageCode", jhex d.languageCode), ("MixType", jbool d.mixType), ("PrivateData", jhex d.privateData)]
+
+def DescriptorExtension.toJson (d : DescriptorExtension) : String :=
+  jobj [("SupplementaryAudio", jptr DescriptorExtensionSupplementaryAudio.toJson d.supplementaryAudio),
+    ("Tag", jnat d.tag), ("Unknown", jptr jhex d.unknown)]
+
+def DescriptorISO639LanguageAndAudioType.toJson (d : DescriptorISO639LanguageAndAudioType) : String :=
+  jobj [("Language", jhex d.language), ("Type", jnat d.type)]
+
+def DescriptorLocalTimeOffsetItem.toJson (d : DescriptorLocalTimeOffsetItem) : String :=
+  jobj [("CountryCode", jhex d.countryCode), ("CountryRegionID", jnat d.countryRegionID),
+    ("LocalTimeOffset", jint d.localTimeOffset), ("LocalTimeOffsetPolarity", jbool d.localTimeOffsetPolarity),
+    ("NextTimeOffset", jint d.nextTimeOffset), ("TimeOfChange", jint d.timeOfChange)]
+
+def DescriptorLocalTimeOffset.toJson (d : DescriptorLocalTimeOffset) : String :=
+  jobj [("Items", jlist DescriptorLocalTimeOffsetItem.toJson d.items)]
+
+def DescriptorMaximumBitrate.toJson (d : DescriptorMaximumBitrate) : String :=
+  jobj [("Bitrate", jnat d.bitrate)]
+
+def DescriptorNetworkName.toJson (d : DescriptorNetworkName) : String :=
+  jobj [("Name", jhex d.name)]
+
+def DescriptorParentalRatingItem.toJson (d : DescriptorParentalRatingItem) : String :=
+  jobj [("CountryCode", jhex d.countryCode), ("Rating", jnat d.rating)]
+
+def DescriptorParentalRating.toJson (d : DescriptorParentalRating) : String :=
+  jobj [("Items", jlist DescriptorParentalRatingItem.toJson d.items)]
+
+def DescriptorPrivateDataIndicator.toJson (d : DescriptorPrivateDataIndicator) : String :=
+  jobj [("Indicator", jnat d.indicator)]
+
+def DescriptorPrivateDataSpecifier.toJson (d : DescriptorPrivateDataSpecifier) : String :=
+  jobj [("Specifier", jnat d.specifier)]
+
+def DescriptorRegistration.toJson (d : DescriptorRegistration) : String :=
+  jobj [("AdditionalIdentificationInfo", jhex d.additionalIdentificationInfo),
+    ("FormatIdentifier", jnat d.formatIdentifier)]
+
+def DescriptorService.toJson (d : DescriptorService) : String :=
+  jobj [("Name", jhex d.name), ("Provider", jhex d.provider), ("Type", jnat d.type)]
+
+def DescriptorShortEvent.toJson (d : DescriptorShortEvent) : String :=
+  jobj [("EventName", jhex d.eventName), ("Language", jhex d.language), ("Text", jhex d.text)]
+
+def DescriptorStreamIdentifier.toJson (d : DescriptorStreamIdentifier) : String :=
+  jobj [("ComponentTag", jnat d.componentTag)]
+
+def DescriptorSubtitlingItem.toJson (d : DescriptorSubtitlingItem) : String :=
+  jobj [("AncillaryPageID", jnat d.ancillaryPageID), ("CompositionPageID", jnat d.compositionPageID),
+    ("Language", jhex d.language), ("Type", jnat d.type)]
+
+def DescriptorSubtitling.toJson (d : DescriptorSubtitling) : String :=
+  jobj [("Items", jlist DescriptorSubtitlingItem.toJson d.items)]
+
+def DescriptorTeletextItem.toJson (d : DescriptorTeletextItem) : String :=
+  jobj [("Language", jhex d.language), ("Magazine", jnat d.magazine), ("Page", jnat d.page), ("Type", jnat d.type)]
+
+def DescriptorTeletext.toJson (d : DescriptorTeletext) : String :=
+  jobj [("Items", jlist DescriptorTeletextItem.toJson d.items)]
+
+def DescriptorUnknown.toJson (d : DescriptorUnknown) : String :=
+  jobj [("Content", jhex d.content), ("Tag", jnat d.tag)]
+
+def DescriptorVBIDataDescriptor.toJson (d : DescriptorVBIDataDescriptor) : String :=
+  jobj [("FieldParity", jbool d.fieldParity), ("LineOffset", jnat d.lineOffset)]
+
+def DescriptorVBIDataService.toJson (d : DescriptorVBIDataService) : String :=
+  jobj [("DataServiceID", jnat d.dataServiceID), ("Descriptors", jlist DescriptorVBIDataDescriptor.toJson d.descriptors)]
+
+def DescriptorVBIData.toJson (d : DescriptorVBIData) : String :=
+  jobj [("Services", jlist DescriptorVBIDataService.toJson d.services)]
+
+def Descriptor.toJson (d : Descriptor) : String :=
+  jobj [("AC3", jptr DescriptorAC3.toJson d.ac3), ("AVCVideo", jptr DescriptorAVCVideo.toJson d.avcVideo),
+    ("Component", jptr DescriptorComponent.toJson d.component), ("Content", jptr DescriptorContent.toJson d.content),
+    ("DataStreamAlignment", jptr DescriptorDataStreamAlignment.toJson d.dataStreamAlignment),
+    ("EnhancedAC3", jptr DescriptorEnhancedAC3.toJson d.enhancedAC3),
+    ("ExtendedEvent", jptr DescriptorExtendedEvent.toJson d.extendedEvent),
+    ("Extension", jptr DescriptorExtension.toJson d.extension),
+    ("ISO639LanguageAndAudioType", jptr DescriptorISO639LanguageAndAudioType.toJson d.iso639LanguageAndAudioType),
+    ("Length", jnat d.length),
+    ("LocalTimeOffset", jptr DescriptorLocalTimeOffset.toJson d.localTimeOffset),
+    ("MaximumBitrate", jptr DescriptorMaximumBitrate.toJson d.maximumBitrate),
+    ("NetworkName", jptr DescriptorNetworkName.toJson d.networkName),
+    ("ParentalRating", jptr DescriptorParentalRating.toJson d.parentalRating),
+    ("PrivateDataIndicator", jptr DescriptorPrivateDataIndicator.toJson d.privateDataIndicator),
+    ("PrivateDataSpecifier", jptr DescriptorPrivateDataSpecifier.toJson d.privateDataSpecifier),
+    ("Registration", jptr DescriptorRegistration.toJson d.registration),
+    ("Service", jptr DescriptorService.toJson d.service),
+    ("ShortEvent", jptr DescriptorShortEvent.toJson d.shortEvent),
+    ("StreamIdentifier", jptr DescriptorStreamIdentifier.toJson d.streamIdentifier),
+    ("Subtitling", jptr DescriptorSubtitling.toJson d.subtitling),
+    ("Tag", jnat d.tag),
+    ("Teletext", jptr DescriptorTeletext.toJson d.teletext),
+    ("Unknown", jptr DescriptorUnknown.toJson d.unknown),
+    ("UserDefined", jhex d.userDefined),
+    ("VBIData", jptr DescriptorVBIData.toJson d.vbiData),
+    ("VBITeletext", jptr DescriptorTeletext.toJson d.vbiTeletext)]
+
+def descriptorsToJson (ds : List Descriptor) : String := jlist Descriptor.toJson ds
+
+/-! ### constants (tied to /repo by `Generated.Consts`) -/
+
+def descriptorTagAC3 : Nat := 0x6a
+def descriptorTagAVCVideo : Nat := 0x28
+def descriptorTagComponent : Nat := 0x50
+def descriptorTagContent : Nat := 0x54
+def descriptorTagDataStreamAlignment : Nat := 0x6
+def descriptorTagEnhancedAC3 : Nat := 0x7a
+def descriptorTagExtendedEvent : Nat := 0x4e
+def descriptorTagExtension : Nat := 0x7f
+def descriptorTagISO639LanguageAndAudioType : Nat := 0xa
+def descriptorTagLocalTimeOffset : Nat := 0x58
+def descriptorTagMaximumBitrate : Nat := 0xe
+def descriptorTagNetworkName : Nat := 0x40
+def descriptorTagParentalRating : Nat := 0x55
+def descriptorTagPrivateDataIndicator : Nat := 0xf
+def descriptorTagPrivateDataSpecifier : Nat := 0x5f
+def descriptorTagRegistration : Nat := 0x5
+def descriptorTagService : Nat := 0x48
+def descriptorTagShortEvent : Nat := 0x4d
+def descriptorTagStreamIdentifier : Nat := 0x52
+def descriptorTagSubtitling : Nat := 0x59
+def descriptorTagTeletext : Nat := 0x56
+def descriptorTagVBIData : Nat := 0x45
+def descriptorTagVBITeletext : Nat := 0x46
+
+def descriptorTagExtensionSupplementaryAudio : Nat := 0x6
+
+/-- the 23 tags of the `switch` in `parseDescriptors` / `calcDescriptorLength` / `writeDescriptor` -/
+def knownDescriptorTags : List Nat :=
+  [descriptorTagAC3, descriptorTagAVCVideo, descriptorTagComponent, descriptorTagContent,
+   descriptorTagDataStreamAlignment, descriptorTagEnhancedAC3, descriptorTagExtendedEvent, descriptorTagExtension,
+   descriptorTagISO639LanguageAndAudioType, descriptorTagLocalTimeOffset, descriptorTagMaximumBitrate,
+   descriptorTagNetworkName, descriptorTagParentalRating, descriptorTagPrivateDataIndicator,
+   descriptorTagPrivateDataSpecifier, descriptorTagRegistration, descriptorTagService, descriptorTagShortEvent,
+   descriptorTagStreamIdentifier, descriptorTagSubtitling, descriptorTagTeletext, descriptorTagVBIData,
+   descriptorTagVBITeletext]
+
+/-- `d.Tag >= 0x80 && d.Tag <= 0xfe` -/
+def isUserDefinedTag (tag : Nat) : Bool := 0x80 ≤ tag && tag ≤ 0xfe
+
+/-- the six `VBIDataServiceID…` constants (the `||` chain of `newDescriptorVBIData` / `writeDescriptorVBIData`) -/
+def isKnownVBIDataServiceID (id : Nat) : Bool :=
+  id = 0x6 || id = 0x1 || id = 0x2 || id = 0x7 || id = 0x4 || id = 0x5
+
+/-! ### parsing -/
+
+/-- a Go run-time panic inside a parser (index / slice bounds) -/
+def P.panic {α} : P α := fun _ => .panic
+
+/-- fuel for a `for i.Offset() < offsetEnd` loop: slice length + 1 (see the header comment) -/
+def loopFuel : P Nat := fun i => .ok (i.bs.length + 1, i)
+
+/-- `if i.Offset() < offsetEnd { x, err = i.NextBytes(offsetEnd - i.Offset()) }` (x stays nil otherwise) -/
+def restIfAny (offsetEnd : Int) : P Bytes := do
+  let off ← It.offset
+  if off < offsetEnd then It.nextBytes (offsetEnd - off) else pure []
+
+/-- `i.NextBytes(offsetEnd - i.Offset())` without a guard -/
+def restTo (offsetEnd : Int) : P Bytes := do
+  let off ← It.offset
+  It.nextBytes (offsetEnd - off)
+
+/-- `if flag { b, err = i.NextByte(); field = b }` (the field keeps its zero value otherwise) -/
+def byteIf (flag : Bool) : P Nat :=
+  if flag then It.nextByte else pure 0
+
+def newDescriptorAC3 (offsetEnd : Int) : P DescriptorAC3 := do
+  let b ← It.nextByte
+  let hasASVC : Bool := b / 16 % 2 = 1
+  let hasBSID : Bool := b / 64 % 2 = 1
+  let hasComponentType : Bool := b / 128 % 2 = 1
+  let hasMainID : Bool := b / 32 % 2 = 1
+  let componentType ← byteIf hasComponentType
+  let bsid ← byteIf hasBSID
+  let mainID ← byteIf hasMainID
+  let asvc ← byteIf hasASVC
+  let additionalInfo ← restIfAny offsetEnd
+  return { additionalInfo := additionalInfo, asvc := asvc, bsid := bsid, componentType := componentType,
+           hasASVC := hasASVC, hasBSID := hasBSID, hasComponentType := hasComponentType, hasMainID := hasMainID,
+           mainID := mainID }
+
+def newDescriptorAVCVideo : P DescriptorAVCVideo := do
+  let b0 ← It.nextByte
+  let b1 ← It.nextByte
+  let b2 ← It.nextByte
+  let b3 ← It.nextByte
+  return { avc24HourPictureFlag := b3 / 64 % 2 = 1, avcStillPresent := b3 / 128 % 2 = 1,
+           compatibleFlags := b1 % 32, constraintSet0Flag := b1 / 128 % 2 = 1,
+           constraintSet1Flag := b1 / 64 % 2 = 1, constraintSet2Flag := b1 / 32 % 2 = 1,
+           levelIDC := b2, profileIDC := b0 }
+
+def newDescriptorComponent (offsetEnd : Int) : P DescriptorComponent := do
+  let b ← It.nextByte
+  let componentType ← It.nextByte
+  let componentTag ← It.nextByte
+  let lang ← It.nextBytes 3
+  let text ← restIfAny offsetEnd
+  return { componentTag := componentTag, componentType := componentType, iso639LanguageCode := lang,
+           streamContent := b % 16, streamContentExt := b / 16 % 16, text := text }
+
+def newDescriptorContentLoop (offsetEnd : Int) : Nat → P (List DescriptorContentItem)
+  | 0 => P.fail
+  | fuel + 1 => do
+    let off ← It.offset
+    if off < offsetEnd then
+      let bs ← It.nextBytes 2
+      let item : DescriptorContentItem :=
+        { contentNibbleLevel1 := bs.getD 0 0 / 16 % 16, contentNibbleLevel2 := bs.getD 0 0 % 16,
+          userByte := bs.getD 1 0 }
+      let rest ← newDescriptorContentLoop offsetEnd fuel
+      return item :: rest
+    else return []
+
+def newDescriptorContent (offsetEnd : Int) : P DescriptorContent := do
+  let fuel ← loopFuel
+  let items ← newDescriptorContentLoop offsetEnd fuel
+  return { items := items }
+
+def newDescriptorDataStreamAlignment : P DescriptorDataStreamAlignment := do
+  let b ← It.nextByte
+  return { type := b }
+
+def newDescriptorEnhancedAC3 (offsetEnd : Int) : P DescriptorEnhancedAC3 := do
+  let b ← It.nextByte
+  let hasASVC : Bool := b / 16 % 2 = 1
+  let hasBSID : Bool := b / 64 % 2 = 1
+  let hasComponentType : Bool := b / 128 % 2 = 1
+  let hasMainID : Bool := b / 32 % 2 = 1
+  let hasSubStream1 : Bool := b / 4 % 2 = 1
+  let hasSubStream2 : Bool := b / 2 % 2 = 1
+  let hasSubStream3 : Bool := b % 2 = 1
+  let mixInfoExists : Bool := b / 8 % 2 = 1
+  let componentType ← byteIf hasComponentType
+  let bsid ← byteIf hasBSID
+  let mainID ← byteIf hasMainID
+  let asvc ← byteIf hasASVC
+  let subStream1 ← byteIf hasSubStream1
+  let subStream2 ← byteIf hasSubStream2
+  let subStream3 ← byteIf hasSubStream3
+  let additionalInfo ← restIfAny offsetEnd
+  return { additionalInfo := additionalInfo, asvc := asvc, bsid := bsid, componentType := componentType,
+           hasASVC := hasASVC, hasBSID := hasBSID, hasComponentType := hasComponentType, hasMainID := hasMainID,
+           hasSubStream1 := hasSubStream1, hasSubStream2 := hasSubStream2, hasSubStream3 := hasSubStream3,
+           mainID := mainID, mixInfoExists := mixInfoExists, subStream1 := subStream1, subStream2 := subStream2,
+           subStream3 := subStream3 }
+
+def newDescriptorExtendedEventItem : P DescriptorExtendedEventItem := do
+  let descriptionLength ← It.nextByte
+  let description ← It.nextBytes descriptionLength
+  let contentLength ← It.nextByte
+  let content ← It.nextBytes contentLength
+  return { content := content, description := description }
+
+def newDescriptorExtendedEventLoop (offsetEnd : Int) : Nat → P (List DescriptorExtendedEventItem)
+  | 0 => P.fail
+  | fuel + 1 => do
+    let off ← It.offset
+    if off < offsetEnd then
+      let item ← newDescriptorExtendedEventItem
+      let rest ← newDescriptorExtendedEventLoop offsetEnd fuel
+      return item :: rest
+    else return []
+
+/-- the items loop ends at the offset given by `length_of_items`, NOT at the descriptor end: items and
+text may run past the descriptor (`parseDescriptors` seeks back afterwards) -/
+def newDescriptorExtendedEvent : P DescriptorExtendedEvent := do
+  let b ← It.nextByte
+  let lang ← It.nextBytes 3
+  let itemsLength ← It.nextByte
+  let off ← It.offset
+  let fuel ← loopFuel
+  let items ← newDescriptorExtendedEventLoop (off + itemsLength) fuel
+  let textLength ← It.nextByte
+  let text ← It.nextBytes textLength
+  return { iso639LanguageCode := lang, items := items, lastDescriptorNumber := b % 16, number := b / 16 % 16,
+           text := text }
+
+def newDescriptorExtensionSupplementaryAudio (offsetEnd : Int) : P DescriptorExtensionSupplementaryAudio := do
+  let b ← It.nextByte
+  let hasLanguageCode : Bool := b % 2 = 1
+  let languageCode ← (if hasLanguageCode then It.nextBytes 3 else pure [] : P Bytes)
+  let privateData ← restIfAny offsetEnd
+  return { editorialClassification := b / 4 % 32, hasLanguageCode := hasLanguageCode,
+           languageCode := languageCode, mixType := b / 128 % 2 = 1, privateData := privateData }
+
+def newDescriptorExtension (offsetEnd : Int) : P DescriptorExtension := do
+  let tag ← It.nextByte
+  if tag = descriptorTagExtensionSupplementaryAudio then
+    let s ← newDescriptorExtensionSupplementaryAudio offsetEnd
+    return { supplementaryAudio := some s, tag := tag }
+  else
+    let b ← restTo offsetEnd
+    return { tag := tag, unknown := some b }
+
+/-- `Language: bs[0:len(bs)-1], Type: bs[len(bs)-1]`: an empty `bs` is a Go slice-bounds panic
+(unreachable from `parseDescriptors`, where `offsetEnd - offset = d.Length > 0`) -/
+def newDescriptorISO639LanguageAndAudioType (offsetEnd : Int) : P DescriptorISO639LanguageAndAudioType := do
+  let bs ← restTo offsetEnd
+  if bs.length = 0 then P.panic
+  else return { language := bs.take (bs.length - 1), type := bs.getD (bs.length - 1) 0 }
+
+def newDescriptorLocalTimeOffsetLoop (offsetEnd : Int) : Nat → P (List DescriptorLocalTimeOffsetItem)
+  | 0 => P.fail
+  | fuel + 1 => do
+    let off ← It.offset
+    if off < offsetEnd then
+      let countryCode ← It.nextBytes 3
+      let b ← It.nextByte
+      let localTimeOffset ← parseDVBDurationMinutes
+      let timeOfChange ← parseDVBTime
+      let nextTimeOffset ← parseDVBDurationMinutes
+      let item : DescriptorLocalTimeOffsetItem :=
+        { countryCode := countryCode, countryRegionID := b / 4 % 64, localTimeOffset := localTimeOffset,
+          localTimeOffsetPolarity := b % 2 = 1, nextTimeOffset := nextTimeOffset, timeOfChange := timeOfChange }
+      let rest ← newDescriptorLocalTimeOffsetLoop offsetEnd fuel
+      return item :: rest
+    else return []
+
+def newDescriptorLocalTimeOffset (offsetEnd : Int) : P DescriptorLocalTimeOffset := do
+  let fuel ← loopFuel
+  let items ← newDescriptorLocalTimeOffsetLoop offsetEnd fuel
+  return { items := items }
+
+/-- `(uint32(bs[0]&0x3f)<<16 | uint32(bs[1])<<8 | uint32(bs[2])) * 50` (< 2^32, no wrap) -/
+def newDescriptorMaximumBitrate : P DescriptorMaximumBitrate := do
+  let bs ← It.nextBytes 3
+  return { bitrate := ((bs.getD 0 0 % 64) * 65536 + bs.getD 1 0 * 256 + bs.getD 2 0) * 50 }
+
+def newDescriptorNetworkName (offsetEnd : Int) : P DescriptorNetworkName := do
+  let name ← restTo offsetEnd
+  return { name := name }
+
+def newDescriptorParentalRatingLoop (offsetEnd : Int) : Nat → P (List DescriptorParentalRatingItem)
+  | 0 => P.fail
+  | fuel + 1 => do
+    let off ← It.offset
+    if off < offsetEnd then
+      let bs ← It.nextBytes 4
+      let item : DescriptorParentalRatingItem := { countryCode := bs.take 3, rating := bs.getD 3 0 }
+      let rest ← newDescriptorParentalRatingLoop offsetEnd fuel
+      return item :: rest
+    else return []
+
+def newDescriptorParentalRating (offsetEnd : Int) : P DescriptorParentalRating := do
+  let fuel ← loopFuel
+  let items ← newDescriptorParentalRatingLoop offsetEnd fuel
+  return { items := items }
+
+/-- `uint32(bs[0])<<24 | uint32(bs[1])<<16 | uint32(bs[2])<<8 | uint32(bs[3])` -/
+def rdBE32 (bs : Bytes) : Nat :=
+  bs.getD 0 0 * 16777216 + bs.getD 1 0 * 65536 + bs.getD 2 0 * 256 + bs.getD 3 0
+
+def newDescriptorPrivateDataIndicator : P DescriptorPrivateDataIndicator := do
+  let bs ← It.nextBytes 4
+  return { indicator := rdBE32 bs }
+
+def newDescriptorPrivateDataSpecifier : P DescriptorPrivateDataSpecifier := do
+  let bs ← It.nextBytes 4
+  return { specifier := rdBE32 bs }
+
+def newDescriptorRegistration (offsetEnd : Int) : P DescriptorRegistration := do
+  let bs ← It.nextBytes 4
+  let info ← restIfAny offsetEnd
+  return { additionalIdentificationInfo := info, formatIdentifier := rdBE32 bs }
+
+def newDescriptorService : P DescriptorService := do
+  let type ← It.nextByte
+  let providerLength ← It.nextByte
+  let provider ← It.nextBytes providerLength
+  let nameLength ← It.nextByte
+  let name ← It.nextBytes nameLength
+  return { name := name, provider := provider, type := type }
+
+def newDescriptorShortEvent : P DescriptorShortEvent := do
+  let language ← It.nextBytes 3
+  let eventLength ← It.nextByte
+  let eventName ← It.nextBytes eventLength
+  let textLength ← It.nextByte
+  let text ← It.nextBytes textLength
+  return { eventName := eventName, language := language, text := text }
+
+def newDescriptorStreamIdentifier : P DescriptorStreamIdentifier := do
+  let b ← It.nextByte
+  return { componentTag := b }
+
+def newDescriptorSubtitlingLoop (offsetEnd : Int) : Nat → P (List DescriptorSubtitlingItem)
+  | 0 => P.fail
+  | fuel + 1 => do
+    let off ← It.offset
+    if off < offsetEnd then
+      let language ← It.nextBytes 3
+      let type ← It.nextByte
+      let c ← It.nextBytes 2
+      let a ← It.nextBytes 2
+      let item : DescriptorSubtitlingItem :=
+        { ancillaryPageID := a.getD 0 0 * 256 + a.getD 1 0, compositionPageID := c.getD 0 0 * 256 + c.getD 1 0,
+          language := language, type := type }
+      let rest ← newDescriptorSubtitlingLoop offsetEnd fuel
+      return item :: rest
+    else return []
+
+def newDescriptorSubtitling (offsetEnd : Int) : P DescriptorSubtitling := do
+  let fuel ← loopFuel
+  let items ← newDescriptorSubtitlingLoop offsetEnd fuel
+  return { items := items }
+
+/-- `Page = uint8(b)>>4*10 + uint8(b&0xf)` (at most 165: no uint8 wrap) -/
+def newDescriptorTeletextLoop (offsetEnd : Int) : Nat → P (List DescriptorTeletextItem)
+  | 0 => P.fail
+  | fuel + 1 => do
+    let off ← It.offset
+    if off < offsetEnd then
+      let language ← It.nextBytes 3
+      let b ← It.nextByte
+      let p ← It.nextByte
+      let item : DescriptorTeletextItem :=
+        { language := language, magazine := b % 8, page := (p / 16 % 16) * 10 + p % 16, type := b / 8 % 32 }
+      let rest ← newDescriptorTeletextLoop offsetEnd fuel
+      return item :: rest
+    else return []
+
+def newDescriptorTeletext (offsetEnd : Int) : P DescriptorTeletext := do
+  let fuel ← loopFuel
+  let items ← newDescriptorTeletextLoop offsetEnd fuel
+  return { items := items }
+
+def newDescriptorUnknown (tag length : Nat) : P DescriptorUnknown := do
+  let content ← It.nextBytes length
+  return { content := content, tag := tag }
+
+/-- inner loop of `newDescriptorVBIData`: one byte per iteration; the byte is kept only for a known id -/
+def newDescriptorVBIDataDescLoop (id : Nat) (offsetDataEnd : Int) : Nat → P (List DescriptorVBIDataDescriptor)
+  | 0 => P.fail
+  | fuel + 1 => do
+    let off ← It.offset
+    if off < offsetDataEnd then
+      let b ← It.nextByte
+      let rest ← newDescriptorVBIDataDescLoop id offsetDataEnd fuel
+      if isKnownVBIDataServiceID id then
+        return { fieldParity := b / 32 % 2 = 1, lineOffset := b % 32 } :: rest
+      else return rest
+    else return []
+
+def newDescriptorVBIDataLoop (offsetEnd : Int) : Nat → P (List DescriptorVBIDataService)
+  | 0 => P.fail
+  | fuel + 1 => do
+    let off ← It.offset
+    if off < offsetEnd then
+      let id ← It.nextByte
+      let dataServiceDescriptorLength ← It.nextByte
+      let off ← It.offset
+      let fuel' ← loopFuel
+      let descs ← newDescriptorVBIDataDescLoop id (off + dataServiceDescriptorLength) fuel'
+      let srv : DescriptorVBIDataService := { dataServiceID := id, descriptors := descs }
+      let rest ← newDescriptorVBIDataLoop offsetEnd fuel
+      return srv :: rest
+    else return []
+
+def newDescriptorVBIData (offsetEnd : Int) : P DescriptorVBIData := do
+  let fuel ← loopFuel
+  let services ← newDescriptorVBIDataLoop offsetEnd fuel
+  return { services := services }
+
+/-- the `switch d.Tag` of `parseDescriptors` (tag outside the user-defined range, `d.Length > 0`) -/
+def parseDescriptorSwitch (d : Descriptor) (offsetDescriptorEnd : Int) : P Descriptor :=
+  if d.tag = descriptorTagAC3 then do
+    let x ← newDescriptorAC3 offsetDescriptorEnd; return { d with ac3 := some x }
+  else if d.tag = descriptorTagAVCVideo then do
+    let x ← newDescriptorAVCVideo; return { d with avcVideo := some x }
+  else if d.tag = descriptorTagComponent then do
+    let x ← newDescriptorComponent offsetDescriptorEnd; return { d with component := some x }
+  else if d.tag = descriptorTagContent then do
+    let x ← newDescriptorContent offsetDescriptorEnd; return { d with content := some x }
+  else if d.tag = descriptorTagDataStreamAlignment then do
+    let x ← newDescriptorDataStreamAlignment; return { d with dataStreamAlignment := some x }
+  else if d.tag = descriptorTagEnhancedAC3 then do
+    let x ← newDescriptorEnhancedAC3 offsetDescriptorEnd; return { d with enhancedAC3 := some x }
+  else if d.tag = descriptorTagExtendedEvent then do
+    let x ← newDescriptorExtendedEvent; return { d with extendedEvent := some x }
+  else if d.tag = descriptorTagExtension then do
+    let x ← newDescriptorExtension offsetDescriptorEnd; return { d with extension := some x }
+  else if d.tag = descriptorTagISO639LanguageAndAudioType then do
+    let x ← newDescriptorISO639LanguageAndAudioType offsetDescriptorEnd
+    return { d with iso639LanguageAndAudioType := some x }
+  else if d.tag = descriptorTagLocalTimeOffset then do
+    let x ← newDescriptorLocalTimeOffset offsetDescriptorEnd; return { d with localTimeOffset := some x }
+  else if d.tag = descriptorTagMaximumBitrate then do
+    let x ← newDescriptorMaximumBitrate; return { d with maximumBitrate := some x }
+  else if d.tag = descriptorTagNetworkName then do
+    let x ← newDescriptorNetworkName offsetDescriptorEnd; return { d with networkName := some x }
+  else if d.tag = descriptorTagParentalRating then do
+    let x ← newDescriptorParentalRating offsetDescriptorEnd; return { d with parentalRating := some x }
+  else if d.tag = descriptorTagPrivateDataIndicator then do
+    let x ← newDescriptorPrivateDataIndicator; return { d with privateDataIndicator := some x }
+  else if d.tag = descriptorTagPrivateDataSpecifier then do
+    let x ← newDescriptorPrivateDataSpecifier; return { d with privateDataSpecifier := some x }
+  else if d.tag = descriptorTagRegistration then do
+    let x ← newDescriptorRegistration offsetDescriptorEnd; return { d with registration := some x }
+  else if d.tag = descriptorTagService then do
+    let x ← newDescriptorService; return { d with service := some x }
+  else if d.tag = descriptorTagShortEvent then do
+    let x ← newDescriptorShortEvent; return { d with shortEvent := some x }
+  else if d.tag = descriptorTagStreamIdentifier then do
+    let x ← newDescriptorStreamIdentifier; return { d with streamIdentifier := some x }
+  else if d.tag = descriptorTagSubtitling then do
+    let x ← newDescriptorSubtitling offsetDescriptorEnd; return { d with subtitling := some x }
+  else if d.tag = descriptorTagTeletext then do
+    let x ← newDescriptorTeletext offsetDescriptorEnd; return { d with teletext := some x }
+  else if d.tag = descriptorTagVBIData then do
+    let x ← newDescriptorVBIData offsetDescriptorEnd; return { d with vbiData := some x }
+  else if d.tag = descriptorTagVBITeletext then do
+    let x ← newDescriptorTeletext offsetDescriptorEnd; return { d with vbiTeletext := some x }
+  else do
+    let x ← newDescriptorUnknown d.tag d.length; return { d with unknown := some x }
+
+/-- one iteration of the loop of `parseDescriptors`: tag, length, data, and the final
+`i.Seek(offsetDescriptorEnd)` (which may move the offset backwards or past the end of the slice) -/
+def parseDescriptor : P Descriptor := do
+  let bs ← It.nextBytes 2
+  let d : Descriptor := { length := bs.getD 1 0, tag := bs.getD 0 0 }
+  if d.length > 0 then
+    let off ← It.offset
+    let offsetDescriptorEnd : Int := off + d.length
+    let d ← (if isUserDefinedTag d.tag then do
+        let u ← It.nextBytes d.length
+        pure { d with userDefined := u }
+      else parseDescriptorSwitch d offsetDescriptorEnd : P Descriptor)
+    It.seek offsetDescriptorEnd
+    return d
+  else return d
+
+/-- every iteration that does not fail leaves the offset at least 2 further (`offsetDescriptorEnd ≥
+offset + 2`) and needs `offset + 2 ≤ len` to start, so `len + 1` fuel is enough -/
+def parseDescriptorsLoop (offsetEnd : Int) : Nat → P (List Descriptor)
+  | 0 => P.fail
+  | fuel + 1 => do
+    let off ← It.offset
+    if off < offsetEnd then
+      let d ← parseDescriptor
+      let rest ← parseDescriptorsLoop offsetEnd fuel
+      return d :: rest
+    else return []
+
+/-- `parseDescriptors`: 12-bit loop length, then the loop -/
 def parseDescriptors : P (List Descriptor) := do
   let bs ← It.nextBytes 2
-  let l := (bs.getD 0 0 % 16) * 256 + bs.getD 1 0
-  It.skip l
-  return []
-def calcDescriptorsLength (ds : List Descriptor) : Nat := 0
-def writeDescriptorsWithLength (ds : List Descriptor) : Bytes := [0xf0, 0]
+  let length : Nat := (bs.getD 0 0 % 16) * 256 + bs.getD 1 0
+  if length > 0 then
+    let off ← It.offset
+    let fuel ← loopFuel
+    parseDescriptorsLoop (off + length) fuel
+  else return []
+
+/-! ### length calculators (`uint8`: the `int` sum is truncated by the final `uint8(ret)`) -/
+
+/-- `calcXxxLength(d.Xxx)` on a possibly nil pointer: `if d == nil { return 0 }` -/
+def nilOr {α} (f : α → Nat) : Option α → Nat
+  | none => 0
+  | some x => f x
+
+def calcDescriptorUserDefinedLength (d : Bytes) : Nat := d.length % 256
+
+def calcDescriptorAC3Length (d : DescriptorAC3) : Nat :=
+  (1 + b2n d.hasComponentType + b2n d.hasBSID + b2n d.hasMainID + b2n d.hasASVC + d.additionalInfo.length) % 256
+
+def calcDescriptorAVCVideoLength (_ : DescriptorAVCVideo) : Nat := 4
+
+def calcDescriptorComponentLength (d : DescriptorComponent) : Nat := (6 + d.text.length) % 256
+
+def calcDescriptorContentLength (d : DescriptorContent) : Nat := (2 * d.items.length) % 256
+
+def calcDescriptorDataStreamAlignmentLength (_ : DescriptorDataStreamAlignment) : Nat := 1
+
+def calcDescriptorEnhancedAC3Length (d : DescriptorEnhancedAC3) : Nat :=
+  (1 + b2n d.hasComponentType + b2n d.hasBSID + b2n d.hasMainID + b2n d.hasASVC + b2n d.hasSubStream1
+    + b2n d.hasSubStream2 + b2n d.hasSubStream3 + d.additionalInfo.length) % 256
+
+/-- `itemsRet` of `calcDescriptorExtendedEventLength` as `int` -/
+def extendedEventItemsSize : List DescriptorExtendedEventItem → Nat
+  | [] => 0
+  | item :: r => 1 + item.description.length + 1 + item.content.length + extendedEventItemsSize r
+
+/-- `calcDescriptorExtendedEventLength`: (descriptorLength, lengthOfItems), both `uint8` -/
+def calcDescriptorExtendedEventLength (d : DescriptorExtendedEvent) : Nat × Nat :=
+  let itemsRet := extendedEventItemsSize d.items
+  ((1 + 3 + 1 + itemsRet + 1 + d.text.length) % 256, itemsRet % 256)
+
+/-- returns `int` in Go -/
+def calcDescriptorExtensionSupplementaryAudioLength (d : DescriptorExtensionSupplementaryAudio) : Nat :=
+  1 + (if d.hasLanguageCode then 3 else 0) + d.privateData.length
+
+def calcDescriptorExtensionLength (d : DescriptorExtension) : Nat :=
+  (1 + (if d.tag = descriptorTagExtensionSupplementaryAudio then
+          nilOr calcDescriptorExtensionSupplementaryAudioLength d.supplementaryAudio
+        else nilOr List.length d.unknown)) % 256
+
+def calcDescriptorISO639LanguageAndAudioTypeLength (_ : DescriptorISO639LanguageAndAudioType) : Nat := 4
+
+def calcDescriptorLocalTimeOffsetLength (d : DescriptorLocalTimeOffset) : Nat := (13 * d.items.length) % 256
+
+def calcDescriptorMaximumBitrateLength (_ : DescriptorMaximumBitrate) : Nat := 3
+
+def calcDescriptorNetworkNameLength (d : DescriptorNetworkName) : Nat := d.name.length % 256
+
+def calcDescriptorParentalRatingLength (d : DescriptorParentalRating) : Nat := (4 * d.items.length) % 256
+
+def calcDescriptorPrivateDataIndicatorLength (_ : DescriptorPrivateDataIndicator) : Nat := 4
+
+def calcDescriptorPrivateDataSpecifierLength (_ : DescriptorPrivateDataSpecifier) : Nat := 4
+
+def calcDescriptorRegistrationLength (d : DescriptorRegistration) : Nat :=
+  (4 + d.additionalIdentificationInfo.length) % 256
+
+def calcDescriptorServiceLength (d : DescriptorService) : Nat := (3 + d.name.length + d.provider.length) % 256
+
+def calcDescriptorShortEventLength (d : DescriptorShortEvent) : Nat :=
+  (3 + 1 + 1 + d.eventName.length + d.text.length) % 256
+
+def calcDescriptorStreamIdentifierLength (_ : DescriptorStreamIdentifier) : Nat := 1
+
+def calcDescriptorSubtitlingLength (d : DescriptorSubtitling) : Nat := (8 * d.items.length) % 256
+
+def calcDescriptorTeletextLength (d : DescriptorTeletext) : Nat := (5 * d.items.length) % 256
+
+/-- bytes `writeDescriptorVBIData` emits for the services (deviation (b): the REPAIRED calculator) -/
+def vbiDataServicesSize : List DescriptorVBIDataService → Nat
+  | [] => 0
+  | s :: r => 2 + (if isKnownVBIDataServiceID s.dataServiceID then s.descriptors.length else 1)
+              + vbiDataServicesSize r
+
+/-- REPAIRED (deviation (b)); the Go source has `uint8(3 * len(d.Services))` -/
+def calcDescriptorVBIDataLength (d : DescriptorVBIData) : Nat := vbiDataServicesSize d.services % 256
+
+def calcDescriptorUnknownLength (d : DescriptorUnknown) : Nat := d.content.length % 256
+
+def calcDescriptorLength (d : Descriptor) : Nat :=
+  if isUserDefinedTag d.tag then calcDescriptorUserDefinedLength d.userDefined
+  else if d.tag = descriptorTagAC3 then nilOr calcDescriptorAC3Length d.ac3
+  else if d.tag = descriptorTagAVCVideo then nilOr calcDescriptorAVCVideoLength d.avcVideo
+  else if d.tag = descriptorTagComponent then nilOr calcDescriptorComponentLength d.component
+  else if d.tag = descriptorTagContent then nilOr calcDescriptorContentLength d.content
+  else if d.tag = descriptorTagDataStreamAlignment then
+    nilOr calcDescriptorDataStreamAlignmentLength d.dataStreamAlignment
+  else if d.tag = descriptorTagEnhancedAC3 then nilOr calcDescriptorEnhancedAC3Length d.enhancedAC3
+  else if d.tag = descriptorTagExtendedEvent then nilOr (fun x => (calcDescriptorExtendedEventLength x).1) d.extendedEvent
+  else if d.tag = descriptorTagExtension then nilOr calcDescriptorExtensionLength d.extension
+  else if d.tag = descriptorTagISO639LanguageAndAudioType then
+    nilOr calcDescriptorISO639LanguageAndAudioTypeLength d.iso639LanguageAndAudioType
+  else if d.tag = descriptorTagLocalTimeOffset then nilOr calcDescriptorLocalTimeOffsetLength d.localTimeOffset
+  else if d.tag = descriptorTagMaximumBitrate then nilOr calcDescriptorMaximumBitrateLength d.maximumBitrate
+  else if d.tag = descriptorTagNetworkName then nilOr calcDescriptorNetworkNameLength d.networkName
+  else if d.tag = descriptorTagParentalRating then nilOr calcDescriptorParentalRatingLength d.parentalRating
+  else if d.tag = descriptorTagPrivateDataIndicator then
+    nilOr calcDescriptorPrivateDataIndicatorLength d.privateDataIndicator
+  else if d.tag = descriptorTagPrivateDataSpecifier then
+    nilOr calcDescriptorPrivateDataSpecifierLength d.privateDataSpecifier
+  else if d.tag = descriptorTagRegistration then nilOr calcDescriptorRegistrationLength d.registration
+  else if d.tag = descriptorTagService then nilOr calcDescriptorServiceLength d.service
+  else if d.tag = descriptorTagShortEvent then nilOr calcDescriptorShortEventLength d.shortEvent
+  else if d.tag = descriptorTagStreamIdentifier then nilOr calcDescriptorStreamIdentifierLength d.streamIdentifier
+  else if d.tag = descriptorTagSubtitling then nilOr calcDescriptorSubtitlingLength d.subtitling
+  else if d.tag = descriptorTagTeletext then nilOr calcDescriptorTeletextLength d.teletext
+  else if d.tag = descriptorTagVBIData then nilOr calcDescriptorVBIDataLength d.vbiData
+  else if d.tag = descriptorTagVBITeletext then nilOr calcDescriptorTeletextLength d.vbiTeletext
+  else nilOr calcDescriptorUnknownLength d.unknown
+
+/-- `Σ (2 + calcDescriptorLength d)` as a plain number (the `int` returned by `writeDescriptors`) -/
+def descriptorsSize : List Descriptor → Nat
+  | [] => 0
+  | d :: ds => 2 + calcDescriptorLength d + descriptorsSize ds
+
+/-- `calcDescriptorsLength` (`uint16` accumulator: the sum modulo 65536) -/
+def calcDescriptorsLength (ds : List Descriptor) : Nat := descriptorsSize ds % 65536
+
+/-! ### writing -/
+
+/-- `Write(uint8)`, `Write(uint16)`, `Write(uint32)` -/
+def wU8 (x : Nat) : Bytes := [x % 256]
+def wU16 (x : Nat) : Bytes := beBytes 2 (x % 65536)
+def wU32 (x : Nat) : Bytes := beBytes 4 (x % 4294967296)
+
+/-- `WriteBytesN(bs, n, pad)`: exactly `n` bytes — the first `n` of `bs`, padded at the end -/
+def wBytesN (bs : Bytes) (n : Nat) (pad : Nat) : Bytes := bs.take n ++ List.replicate (n - bs.length) pad
+
+def writeDescriptorUserDefined (d : Bytes) : Bytes := d
+
+def writeDescriptorAC3 (d : DescriptorAC3) : Bytes :=
+  packFields [(b2n d.hasComponentType, 1), (b2n d.hasBSID, 1), (b2n d.hasMainID, 1), (b2n d.hasASVC, 1), (0xff, 4)]
+  ++ (if d.hasComponentType then wU8 d.componentType else [])
+  ++ (if d.hasBSID then wU8 d.bsid else [])
+  ++ (if d.hasMainID then wU8 d.mainID else [])
+  ++ (if d.hasASVC then wU8 d.asvc else [])
+  ++ d.additionalInfo
+
+def writeDescriptorAVCVideo (d : DescriptorAVCVideo) : Bytes :=
+  wU8 d.profileIDC
+  ++ packFields [(b2n d.constraintSet0Flag, 1), (b2n d.constraintSet1Flag, 1), (b2n d.constraintSet2Flag, 1),
+       (d.compatibleFlags, 5)]
+  ++ wU8 d.levelIDC
+  ++ packFields [(b2n d.avcStillPresent, 1), (b2n d.avc24HourPictureFlag, 1), (0xff, 6)]
+
+def writeDescriptorComponent (d : DescriptorComponent) : Bytes :=
+  packFields [(d.streamContentExt, 4), (d.streamContent, 4)]
+  ++ wU8 d.componentType ++ wU8 d.componentTag
+  ++ wBytesN d.iso639LanguageCode 3 0
+  ++ d.text
+
+def writeDescriptorContentItems : List DescriptorContentItem → Bytes
+  | [] => []
+  | item :: r =>
+    packFields [(item.contentNibbleLevel1, 4), (item.contentNibbleLevel2, 4)] ++ wU8 item.userByte
+    ++ writeDescriptorContentItems r
+
+def writeDescriptorContent (d : DescriptorContent) : Bytes := writeDescriptorContentItems d.items
+
+def writeDescriptorDataStreamAlignment (d : DescriptorDataStreamAlignment) : Bytes := wU8 d.type
+
+def writeDescriptorEnhancedAC3 (d : DescriptorEnhancedAC3) : Bytes :=
+  packFields [(b2n d.hasComponentType, 1), (b2n d.hasBSID, 1), (b2n d.hasMainID, 1), (b2n d.hasASVC, 1),
+    (b2n d.mixInfoExists, 1), (b2n d.hasSubStream1, 1), (b2n d.hasSubStream2, 1), (b2n d.hasSubStream3, 1)]
+  ++ (if d.hasComponentType then wU8 d.componentType else [])
+  ++ (if d.hasBSID then wU8 d.bsid else [])
+  ++ (if d.hasMainID then wU8 d.mainID else [])
+  ++ (if d.hasASVC then wU8 d.asvc else [])
+  ++ (if d.hasSubStream1 then wU8 d.subStream1 else [])
+  ++ (if d.hasSubStream2 then wU8 d.subStream2 else [])
+  ++ (if d.hasSubStream3 then wU8 d.subStream3 else [])
+  ++ d.additionalInfo
+
+/-- `Write(uint8(len(x))); Write(x)`: the length byte wraps, the bytes are written in full -/
+def writeDescriptorExtendedEventItems : List DescriptorExtendedEventItem → Bytes
+  | [] => []
+  | item :: r =>
+    wU8 item.description.length ++ item.description ++ wU8 item.content.length ++ item.content
+    ++ writeDescriptorExtendedEventItems r
+
+def writeDescriptorExtendedEvent (d : DescriptorExtendedEvent) : Bytes :=
+  packFields [(d.number, 4), (d.lastDescriptorNumber, 4)]
+  ++ wBytesN d.iso639LanguageCode 3 0
+  ++ wU8 (calcDescriptorExtendedEventLength d).2
+  ++ writeDescriptorExtendedEventItems d.items
+  ++ wU8 d.text.length ++ d.text
+
+def writeDescriptorExtensionSupplementaryAudio (d : DescriptorExtensionSupplementaryAudio) : Bytes :=
+  packFields [(b2n d.mixType, 1), (d.editorialClassification, 5), (1, 1), (b2n d.hasLanguageCode, 1)]
+  ++ (if d.hasLanguageCode then wBytesN d.languageCode 3 0 else [])
+  ++ d.privateData
+
+/-- with tag 6 and a nil `SupplementaryAudio` Go writes the tag byte and then panics (nil dereference);
+the model returns just the tag byte, see `writeDescriptorPanics` -/
+def writeDescriptorExtension (d : DescriptorExtension) : Bytes :=
+  wU8 d.tag
+  ++ (if d.tag = descriptorTagExtensionSupplementaryAudio then
+        (match d.supplementaryAudio with
+         | some s => writeDescriptorExtensionSupplementaryAudio s
+         | none => [])
+      else
+        (match d.unknown with
+         | some b => b
+         | none => []))
+
+def writeDescriptorISO639LanguageAndAudioType (d : DescriptorISO639LanguageAndAudioType) : Bytes :=
+  wBytesN d.language 3 0 ++ wU8 d.type
+
+def writeDescriptorLocalTimeOffsetItems : List DescriptorLocalTimeOffsetItem → Bytes
+  | [] => []
+  | item :: r =>
+    wBytesN item.countryCode 3 0
+    ++ packFields [(item.countryRegionID, 6), (0xff, 1), (b2n item.localTimeOffsetPolarity, 1)]
+    ++ writeDVBDurationMinutes item.localTimeOffset
+    ++ writeDVBTime item.timeOfChange
+    ++ writeDVBDurationMinutes item.nextTimeOffset
+    ++ writeDescriptorLocalTimeOffsetItems r
+
+def writeDescriptorLocalTimeOffset (d : DescriptorLocalTimeOffset) : Bytes :=
+  writeDescriptorLocalTimeOffsetItems d.items
+
+/-- `WriteN(uint8(0xff), 2); WriteN(uint32(d.Bitrate/50), 22)` -/
+def writeDescriptorMaximumBitrate (d : DescriptorMaximumBitrate) : Bytes :=
+  packFields [(0xff, 2), (d.bitrate / 50, 22)]
+
+def writeDescriptorNetworkName (d : DescriptorNetworkName) : Bytes := d.name
+
+def writeDescriptorParentalRatingItems : List DescriptorParentalRatingItem → Bytes
+  | [] => []
+  | item :: r => wBytesN item.countryCode 3 0 ++ wU8 item.rating ++ writeDescriptorParentalRatingItems r
+
+def writeDescriptorParentalRating (d : DescriptorParentalRating) : Bytes :=
+  writeDescriptorParentalRatingItems d.items
+
+def writeDescriptorPrivateDataIndicator (d : DescriptorPrivateDataIndicator) : Bytes := wU32 d.indicator
+
+def writeDescriptorPrivateDataSpecifier (d : DescriptorPrivateDataSpecifier) : Bytes := wU32 d.specifier
+
+def writeDescriptorRegistration (d : DescriptorRegistration) : Bytes :=
+  wU32 d.formatIdentifier ++ d.additionalIdentificationInfo
+
+def writeDescriptorService (d : DescriptorService) : Bytes :=
+  wU8 d.type ++ wU8 d.provider.length ++ d.provider ++ wU8 d.name.length ++ d.name
+
+def writeDescriptorShortEvent (d : DescriptorShortEvent) : Bytes :=
+  wBytesN d.language 3 0 ++ wU8 d.eventName.length ++ d.eventName ++ wU8 d.text.length ++ d.text
+
+def writeDescriptorStreamIdentifier (d : DescriptorStreamIdentifier) : Bytes := wU8 d.componentTag
+
+def writeDescriptorSubtitlingItems : List DescriptorSubtitlingItem → Bytes
+  | [] => []
+  | item :: r =>
+    wBytesN item.language 3 0 ++ wU8 item.type ++ wU16 item.compositionPageID ++ wU16 item.ancillaryPageID
+    ++ writeDescriptorSubtitlingItems r
+
+def writeDescriptorSubtitling (d : DescriptorSubtitling) : Bytes := writeDescriptorSubtitlingItems d.items
+
+/-- `WriteN(item.Page/10, 4); WriteN(item.Page%10, 4)`: `Page/10` is cut to 4 bits (pages ≥ 160 lose it) -/
+def writeDescriptorTeletextItems : List DescriptorTeletextItem → Bytes
+  | [] => []
+  | item :: r =>
+    wBytesN item.language 3 0
+    ++ packFields [(item.type, 5), (item.magazine, 3), (item.page / 10, 4), (item.page % 10, 4)]
+    ++ writeDescriptorTeletextItems r
+
+def writeDescriptorTeletext (d : DescriptorTeletext) : Bytes := writeDescriptorTeletextItems d.items
+
+def writeDescriptorVBIDataDescriptors : List DescriptorVBIDataDescriptor → Bytes
+  | [] => []
+  | desc :: r =>
+    packFields [(0xff, 2), (b2n desc.fieldParity, 1), (desc.lineOffset, 5)] ++ writeDescriptorVBIDataDescriptors r
+
+/-- an unknown data service id gets one reserved byte: length 1, 0xff -/
+def writeDescriptorVBIDataServices : List DescriptorVBIDataService → Bytes
+  | [] => []
+  | item :: r =>
+    wU8 item.dataServiceID
+    ++ (if isKnownVBIDataServiceID item.dataServiceID then
+          wU8 item.descriptors.length ++ writeDescriptorVBIDataDescriptors item.descriptors
+        else [1, 0xff])
+    ++ writeDescriptorVBIDataServices r
+
+def writeDescriptorVBIData (d : DescriptorVBIData) : Bytes := writeDescriptorVBIDataServices d.services
+
+def writeDescriptorUnknown (d : DescriptorUnknown) : Bytes := d.content
+
+/-- `writeXxx(w, d.Xxx)` on a possibly nil pointer. Go dereferences the pointer: nil is a run-time panic.
+The model yields `[]` there. This is unreachable from `writeDescriptor`: a nil sub-struct makes
+`calcDescriptorLength` 0 and (repaired) `writeDescriptor` then writes no body. Generators never produce it. -/
+def nilBody {α} (f : α → Bytes) : Option α → Bytes
+  | none => []
+  | some x => f x
+
+/-- what the per-kind writer selected by `writeDescriptor` emits -/
+def descriptorBody (d : Descriptor) : Bytes :=
+  if isUserDefinedTag d.tag then writeDescriptorUserDefined d.userDefined
+  else if d.tag = descriptorTagAC3 then nilBody writeDescriptorAC3 d.ac3
+  else if d.tag = descriptorTagAVCVideo then nilBody writeDescriptorAVCVideo d.avcVideo
+  else if d.tag = descriptorTagComponent then nilBody writeDescriptorComponent d.component
+  else if d.tag = descriptorTagContent then nilBody writeDescriptorContent d.content
+  else if d.tag = descriptorTagDataStreamAlignment then
+    nilBody writeDescriptorDataStreamAlignment d.dataStreamAlignment
+  else if d.tag = descriptorTagEnhancedAC3 then nilBody writeDescriptorEnhancedAC3 d.enhancedAC3
+  else if d.tag = descriptorTagExtendedEvent then nilBody writeDescriptorExtendedEvent d.extendedEvent
+  else if d.tag = descriptorTagExtension then nilBody writeDescriptorExtension d.extension
+  else if d.tag = descriptorTagISO639LanguageAndAudioType then
+    nilBody writeDescriptorISO639LanguageAndAudioType d.iso639LanguageAndAudioType
+  else if d.tag = descriptorTagLocalTimeOffset then nilBody writeDescriptorLocalTimeOffset d.localTimeOffset
+  else if d.tag = descriptorTagMaximumBitrate then nilBody writeDescriptorMaximumBitrate d.maximumBitrate
+  else if d.tag = descriptorTagNetworkName then nilBody writeDescriptorNetworkName d.networkName
+  else if d.tag = descriptorTagParentalRating then nilBody writeDescriptorParentalRating d.parentalRating
+  else if d.tag = descriptorTagPrivateDataIndicator then
+    nilBody writeDescriptorPrivateDataIndicator d.privateDataIndicator
+  else if d.tag = descriptorTagPrivateDataSpecifier then
+    nilBody writeDescriptorPrivateDataSpecifier d.privateDataSpecifier
+  else if d.tag = descriptorTagRegistration then nilBody writeDescriptorRegistration d.registration
+  else if d.tag = descriptorTagService then nilBody writeDescriptorService d.service
+  else if d.tag = descriptorTagShortEvent then nilBody writeDescriptorShortEvent d.shortEvent
+  else if d.tag = descriptorTagStreamIdentifier then nilBody writeDescriptorStreamIdentifier d.streamIdentifier
+  else if d.tag = descriptorTagSubtitling then nilBody writeDescriptorSubtitling d.subtitling
+  else if d.tag = descriptorTagTeletext then nilBody writeDescriptorTeletext d.teletext
+  else if d.tag = descriptorTagVBIData then nilBody writeDescriptorVBIData d.vbiData
+  else if d.tag = descriptorTagVBITeletext then nilBody writeDescriptorTeletext d.vbiTeletext
+  else nilBody writeDescriptorUnknown d.unknown
+
+/-- `writeDescriptor`: tag, computed length, body. Deviation (a): the body is skipped when the COMPUTED
+length is 0 (the Go source tests the struct field `d.Length`). -/
+def writeDescriptor (d : Descriptor) : Bytes :=
+  let length := calcDescriptorLength d
+  wU8 d.tag ++ wU8 length ++ (if length = 0 then [] else descriptorBody d)
+
+/-- the one nil dereference (repaired) `writeDescriptor` can still reach on model values: an extension
+descriptor with tag 6 and no `SupplementaryAudio` (computed length 1, then `d.MixType` on nil). Go has
+by then emitted tag, length and the extension tag byte — exactly the model's bytes. -/
+def writeDescriptorPanics (d : Descriptor) : Bool :=
+  !isUserDefinedTag d.tag && d.tag = descriptorTagExtension &&
+  (match d.extension with
+   | some e => e.tag = descriptorTagExtensionSupplementaryAudio && e.supplementaryAudio.isNone
+   | none => false)
+
+def writeDescriptors : List Descriptor → Bytes
+  | [] => []
+  | d :: ds => writeDescriptor d ++ writeDescriptors ds
+
+/-- `writeDescriptorsWithLength`: 4 reserved bits, the 12 low bits of `calcDescriptorsLength`, the loop -/
+def writeDescriptorsWithLength (ds : List Descriptor) : Bytes :=
+  packFields [(0xff, 4), (calcDescriptorsLength ds, 12)] ++ writeDescriptors ds
+
+/-- the `int` returned by `writeDescriptorsWithLength` (not wrapped) -/
+def writeDescriptorsWithLengthCount (ds : List Descriptor) : Nat := descriptorsSize ds + 2
+
 end Astits
